@@ -106,6 +106,56 @@ func runC09Tuple(k *eng.Check) {
 		}
 	}
 
+	// sibling agreement: the iterators the node serializer uses enumerate exactly the encodings the classifiers list
+	for _, pr := range [][2]string{{"store/val.IterAddressFields", "store/val.IsAddrEncoding"}, {"store/val.IterAdaptiveFields", "store/val.IsAdaptiveEncoding"}} {
+		it := encCaseSet(k, pr[0])
+		cl := addr
+		if pr[1] == "store/val.IsAdaptiveEncoding" {
+			cl = adapt
+		}
+		if it == nil {
+			continue
+		}
+		for v, name := range cl {
+			_, ok := it[v]
+			k.Require("addr-iterator-agrees", pr[0]+"#"+name, "an encoding classified by "+pr[1]+" is visited by "+pr[0]+" (the serializer records address offsets only for visited fields)", ok, c.Pos(c.Func(pr[0]).Pos()),
+				"the classifier lists this encoding but the iterator does not: its out-of-band address is never recorded in the node and never walked")
+		}
+		for v, name := range it {
+			_, ok := cl[v]
+			k.Require("addr-iterator-agrees", pr[0]+"#"+name+"(reverse)", "an encoding visited by "+pr[0]+" is classified by "+pr[1], ok, c.Pos(c.Func(pr[0]).Pos()), "iterator visits an encoding the classifier does not list")
+		}
+	}
+	// the serializer package does not classify encodings privately: it must go through the iterators above
+	nCmp, nVal := 0, 0
+	isEncConstCmp := func(in ssa.Instruction) bool {
+		b, ok := in.(*ssa.BinOp)
+		if !ok {
+			return false
+		}
+		for _, pair := range [][2]ssa.Value{{b.X, b.Y}, {b.Y, b.X}} {
+			if _, isC := pair[1].(*ssa.Const); isC && strings.HasSuffix(eng.ShortType(pair[0].Type()), "store/val.Encoding") {
+				return true
+			}
+		}
+		return false
+	}
+	for _, fn := range c.Funcs("store/val") {
+		nVal += len(eng.Instrs(fn, isEncConstCmp))
+	}
+	for _, fn := range c.Funcs("store/prolly/message") {
+		for _, in := range eng.Instrs(fn, isEncConstCmp) {
+			nCmp++
+			k.Fail("serializer-uses-canonical-classifiers", eng.Name(fn), "store/prolly/message decides which fields carry addresses only through val.IterAddressFields/IterAdaptiveFields", c.InstrPos(in),
+				"the node serializer compares a val.Encoding against a constant: a private encoding list can drift from val.IsAddrEncoding/IsAdaptiveEncoding", nil)
+		}
+	}
+	if nVal < 20 {
+		k.Unknown("serializer-uses-canonical-classifiers", "scanner self-check", "comparisons of val.Encoding with constants in store/val (positive control)", fmt.Sprintf("only %d found: the scanner no longer recognises encoding comparisons", nVal))
+	} else if nCmp == 0 {
+		k.Pass("serializer-uses-canonical-classifiers", "store/prolly/message", fmt.Sprintf("no private encoding classification in the serializer package (positive control: %d such comparisons recognised in store/val)", nVal), nVal)
+	}
+
 	// serializer: every function of store/prolly/message that iterates address fields also iterates adaptive fields
 	mAddr := eng.Static("store/val.IterAddressFields")
 	mAdap := eng.Static("store/val.IterAdaptiveFields")
